@@ -520,22 +520,29 @@ func registerC20Oracle() {
 				return core.Disagree("malformed oracle outcome")
 			}
 			r := o.Ok
-			allEmptyVar := len(r.Fails) > 0
-			for _, f := range r.Fails {
-				allEmptyVar = allEmptyVar && strings.HasSuffix(f.Key, ":empty-variable-name")
-			}
-			if allEmptyVar {
-				// one recorded defect, many symptoms (every renderer, every derived project): one key
-				return core.Fail("leak:config:empty-variable-name", r.Fails[0].What)
-			}
-			// report an unrecorded kind of failure before the recorded empty-variable-name one
-			for _, f := range r.Fails {
-				if !strings.HasSuffix(f.Key, ":empty-variable-name") && !strings.HasSuffix(f.Key, ":yaml.v3-multiline-roundtrip") {
+			// an unrecorded kind of failure is reported first; the two recorded defects have one key each,
+			// whatever the number of symptoms (every renderer, every derived project) in the case
+			var emptyVar, yamlV3 *leakFail
+			for k := range r.Fails {
+				f := &r.Fails[k]
+				switch {
+				case strings.HasSuffix(f.Key, ":empty-variable-name"):
+					if emptyVar == nil {
+						emptyVar = f
+					}
+				case strings.HasSuffix(f.Key, ":yaml.v3-multiline-roundtrip"):
+					if yamlV3 == nil {
+						yamlV3 = f
+					}
+				default:
 					return core.Fail(f.Key, f.What)
 				}
 			}
-			if len(r.Fails) > 0 {
-				return core.Fail(r.Fails[0].Key, r.Fails[0].What)
+			if emptyVar != nil {
+				return core.Fail("leak:config:empty-variable-name", emptyVar.What)
+			}
+			if yamlV3 != nil {
+				return core.Fail(yamlV3.Key, yamlV3.What)
 			}
 			return nil
 		},
